@@ -1,5 +1,5 @@
 CONSTANTS Mols = {1, 2, 3}
- MaxLimit = 2
+ MaxLimit = 3
  Growth = TRUE
 SPECIFICATION Spec
 INVARIANT NoDuplicates
